@@ -35,6 +35,7 @@ const PkoGroup = "package-operator.run"
 const RevAnn = "package-operator.run/revision"
 const OwnersAnn = "package-operator.run/owners"
 const PkgLabel = "package-operator.run/package"
+const InstLabel = "package-operator.run/instance"
 
 // ---------- scenario (JSON; mirrored by lean/Pko/Drv/PhaseCommon.lean)
 
@@ -54,6 +55,40 @@ type OwnerSpec struct {
 	Rev      int64  `json:"rev"`
 	Paused   bool   `json:"paused"`
 	PkgLabel string `json:"pkgLabel"`
+	// optional (additive): the package-instance label and further labels / annotations of the owner.
+	// The model claims none of them influences any decision; InstLabel is stamped onto applied objects.
+	InstLabel string            `json:"instLabel,omitempty"`
+	XLabels   map[string]string `json:"xlabels,omitempty"`
+	XAnn      map[string]string `json:"xann,omitempty"`
+}
+
+// Labels / Annotations of the owner object as the flavours have to set them.
+func (o OwnerSpec) Labels() map[string]string {
+	l := map[string]string{}
+	for k, v := range o.XLabels {
+		l[k] = v
+	}
+	if o.PkgLabel != "" {
+		l[PkgLabel] = o.PkgLabel
+	}
+	if o.InstLabel != "" {
+		l[InstLabel] = o.InstLabel
+	}
+	if len(l) == 0 {
+		return nil
+	}
+	return l
+}
+
+func (o OwnerSpec) Annotations() map[string]string {
+	if len(o.XAnn) == 0 {
+		return nil
+	}
+	a := map[string]string{}
+	for k, v := range o.XAnn {
+		a[k] = v
+	}
+	return a
 }
 
 type PrevSpec struct {
@@ -61,6 +96,8 @@ type PrevSpec struct {
 	Name    string      `json:"name"`
 	UID     string      `json:"uid"`
 	Remotes [][2]string `json:"remotes"`
+	// optional (additive): labels of the previous revision object (never read by the model)
+	Labels map[string]string `json:"labels,omitempty"`
 }
 
 type PObj struct {
@@ -86,6 +123,10 @@ type SObj struct {
 	Ready     bool   `json:"ready"`
 	ObsGen    int64  `json:"obsGen"` // -1 = not declared
 	Finalizer bool   `json:"finalizer"`
+	// optional (additive): package-instance label, further labels / annotations (never read by the model)
+	Inst    string            `json:"inst,omitempty"`
+	XLabels map[string]string `json:"xlabels,omitempty"`
+	XAnn    map[string]string `json:"xann,omitempty"`
 }
 
 type EnvOp struct {
@@ -226,6 +267,9 @@ func (o SObj) BuildFor(ownerNS string) *unstructured.Unstructured {
 	u.SetName(o.Name)
 	u.SetOwnerReferences(toOwnerRefs(o.Owners))
 	ann := map[string]string{}
+	for k, v := range o.XAnn {
+		ann[k] = v
+	}
 	if o.Rev != "" {
 		ann[RevAnn] = o.Rev
 	}
@@ -236,11 +280,17 @@ func (o SObj) BuildFor(ownerNS string) *unstructured.Unstructured {
 		u.SetAnnotations(ann)
 	}
 	lbl := map[string]string{}
+	for k, v := range o.XLabels {
+		lbl[k] = v
+	}
 	if o.Cache {
 		lbl[verifstore.CacheLabel] = "True"
 	}
 	if o.Pkg != "" {
 		lbl[PkgLabel] = o.Pkg
+	}
+	if o.Inst != "" {
+		lbl[InstLabel] = o.Inst
 	}
 	if len(lbl) > 0 {
 		u.SetLabels(lbl)
@@ -344,6 +394,15 @@ func ObjStr(u *unstructured.Unstructured) string {
 	return fmt.Sprintf("%s/%s/%s{u=%s,o=[%s],a=[%s],r=%s,l=%s,k=%s,p=%s,g=%d,f=%s,d=%s,s=%s:%s}",
 		u.GetKind(), u.GetNamespace(), u.GetName(), uidNum(u.GetUID()), refsStr(u.GetOwnerReferences()),
 		annRefsStr(u.GetAnnotations()[OwnersAnn]), rev, l, u.GetLabels()[PkgLabel], payload, u.GetGeneration(), f, d, ready, og)
+}
+
+// InstSuffix prints the package-instance label of an object, if it has one (phase streams only:
+// ObjStr itself is shared with the controller-level streams and stays as it is).
+func InstSuffix(u *unstructured.Unstructured) string {
+	if v, ok := u.GetLabels()[InstLabel]; ok {
+		return "~i=" + v
+	}
+	return ""
 }
 
 func EventsStr(log []*verifstore.Request) string {
@@ -499,7 +558,7 @@ func ApplyEnv(env *Env, e EnvOp) {
 			n.SetNamespace(cur.GetNamespace())
 			n.SetName(cur.GetName())
 			lbl := map[string]string{}
-			for _, l := range []string{verifstore.CacheLabel, PkgLabel} {
+			for _, l := range []string{verifstore.CacheLabel, PkgLabel, InstLabel} {
 				if v, ok := cur.GetLabels()[l]; ok {
 					lbl[l] = v
 				}
@@ -631,7 +690,7 @@ func Exec(scheme *runtime.Scheme, fl Flavour, s Scn) string {
 	}
 	var objs []string
 	for _, u := range env.Store.Snapshot() {
-		objs = append(objs, ObjStr(u))
+		objs = append(objs, ObjStr(u)+InstSuffix(u))
 	}
 	sort.Strings(objs)
 	return outcome + " # " + EventsStr(env.Store.Log) + " # " + strings.Join(objs, ";")
